@@ -84,10 +84,16 @@ def run(ctx):
         OTHER_FAMS,
         "simulated long read-only histories",
         workers=1,
-        simulate="num=%d" % (400 if thorough else 60),
+        simulate="num=%d" % (200 if thorough else 40),
         depth=12 if thorough else 8,
         seed=ctx.seed + 11,
-    ) if False else []
+    )
+    # (TLC evaluates the emitting invariant on every successor of a simulated prefix, so each
+    # simulated prefix arrives with every possible last step: sample from that pool)
+    rng.shuffle(long_hs)
+    long_hs = long_hs[: (3000 if thorough else 300)]
+    ctx.note("long_histories", len(long_hs))
+    hs = hs + long_hs
     jobs = []
     for k, h in enumerate(hs):
         if thorough:
@@ -102,6 +108,9 @@ def run(ctx):
     viol, drift = gc.validate(ctx, traces, "validate %d recorded traces against GridLazy" % len(traces))
     ctx.note("phase_seconds", {"model": round(t1 - t0, 1), "generate": round(t2 - t1, 1), "replay": round(t3 - t2, 1), "validate": round(time.time() - t3, 1)})
     gc.report(ctx, traces, viol, drift)
+    if thorough:
+        # code -> specification on the histories the repository's own tests perform
+        gc.recorder_run(ctx)
     ctx.exhaustive = True
     ctx.rule = (
         "TLC proves the invariants of GridLazy under the intended mechanism (exhaustive per action family) and that the "
